@@ -347,8 +347,13 @@ class _NoCall:
         return _NoCall()
 
 
-class _NoCallArgs(dict):
+class _NoCallArgs:
+    _pyvc_native = True
+
     def __getitem__(self, k):
+        return _NoCall()
+
+    def get(self, k, default=None):
         return _NoCall()
 
 
@@ -468,7 +473,16 @@ class Contract:
         def writes_to(obj):
             """frame ghost: number of attribute / item writes to this (pre-existing) object on this path"""
             return sum(1 for (o, n) in (getattr(interp, "write_log", None) or []) if o is obj)
-        vars.update(sum_src=sum_src, sum_axes=sum_axes, writes_to=writes_to)
+        def ndi_call(name, n=0):
+            """ghost: (result, positional args, keyword args) of the n-th scipy.ndimage.<name> call on this path"""
+            hits = [e for e in _S.GHOST.get("ndi", []) if e[0] == name]
+            if len(hits) <= n:
+                return (_NoCall(), (), _NoCallArgs())
+            return (hits[n][1], hits[n][2], hits[n][3])
+
+        def ndi_count(name=None):
+            return sum(1 for e in _S.GHOST.get("ndi", []) if name is None or e[0] == name)
+        vars.update(sum_src=sum_src, sum_axes=sum_axes, writes_to=writes_to, ndi_call=ndi_call, ndi_count=ndi_count)
         vars.update(self.helpers)
         vars.update(bound)
         if extra:
@@ -572,9 +586,26 @@ def forall(interp, fn, *ranges):
             vals.append(fn(*combo))
         return V.sand(*vals) if vals else True
     names = [z3.Int(V.fresh_name("q")) for _ in range(n)]
+    path = interp.path
+    n0 = len(path.conds) if path is not None else 0
     body = fn(*[Sym(v) for v in names])
+    # facts assumed while the body was evaluated (instance axioms of sqrt/exp/..., callee contracts) that mention the
+    # bound variables belong inside the quantifier
+    local = []
+    if path is not None:
+        from . import loops as _loops
+        keep = []
+        for c in path.conds[n0:]:
+            if any(_loops._term_mentions(c, v) for v in names):
+                local.append(c)
+            else:
+                keep.append(c)
+        path.conds[n0:] = keep
     rng = z3.And(*[z3.And(v >= V.lift(lo), v < V.lift(hi)) for v, (lo, hi) in zip(names, ranges)])
-    return Sym(z3.ForAll(names, z3.Implies(rng, V._bool_term(body) if is_sym(body) else z3.BoolVal(bool(body)))))
+    bt = V._bool_term(body) if is_sym(body) else z3.BoolVal(bool(body))
+    if local:
+        bt = z3.Implies(z3.And(*local), bt)
+    return Sym(z3.ForAll(names, z3.Implies(rng, bt)))
 
 
 def forall_real(interp, fn, n=1):
